@@ -92,7 +92,12 @@ func HC10_realSource() {
 		src = "const (\n\tA E = \"a\" // first\n\tB E = \"b\"\n)\n"
 		v = variant{src, []string{"A", "B"}, []string{"first", ""}, false, true}
 	}
-	file := "package p\n\ntype E " + under + "\n\n" + src + "\ntype Holder struct {\n\tV E\n}\n"
+	// identifiers of the enum may be shadowed by function-local declarations standing earlier in the file
+	prelude := ""
+	if vfChoice("prelude", 2) == 1 {
+		prelude = "func early() int {\n\tconst A = 7 // gomacro:no-enum\n\tvar B = 1 // shadow label\n\tconst C, nbE = 2, 3 // shadows\n\treturn A + B + C + nbE\n}\n\n"
+	}
+	file := "package p\n\n" + prelude + "type E " + under + "\n\n" + src + "\ntype Holder struct {\n\tV E\n}\n"
 	pkg := vfTypeCheck("example.com/mod/p", []string{"/m/p/e.go"}, []string{file}, nil)
 	var ana *Analysis
 	panicked, rt, msg := vfCatch(func() { ana = NewAnalysisFromFile(pkg, "/m/p/e.go") })
@@ -141,6 +146,10 @@ func HC11_realSource() {
 		"type Wrapped struct {\n\tCircle\n\tLabel string\n}\n\n" +
 		"type Count int\n\nfunc (Count) isShape() {}\n\n" +
 		"type Holder struct {\n\t" + field + "\n"
+	if vfChoice("aliases", 2) == 1 {
+		// alias declarations name no new type: they add no member
+		src = strings.Replace(src, "type Holder struct", "type Round = Circle\n\ntype Num = Count\n\ntype Figure = Shape\n\ntype Holder struct", 1)
+	}
 	if withAny {
 		src += "\tA Any\n"
 	}
@@ -191,4 +200,46 @@ func HC11_realSource() {
 	}
 	hs := ana.Types[holder].(*Struct)
 	vfAssert(len(hs.Implements) == map[bool]int{false: 0, true: 1}[withAny], "C11/a-struct-implementing-no-analysed-union-but-any-reports-only-it")
+}
+
+// HC12_aliases: alias declarations, chains of aliases included, denote the type they stand for: every
+// field reached through an alias is analysed as the node of the aliased type and converts back to it.
+func HC12_aliases() {
+	src := "package p\n\ntype Dist float64\n\ntype Meters = Dist\n\ntype Length = Meters\n\ntype Rec struct{ A int }\n\ntype RecA = Rec\n\ntype RecB = RecA\n\ntype Text = string\n\ntype Words = []Text\n\n" +
+		"type Holder struct {\n\tD Dist\n\tM Meters\n\tL Length\n\tR RecB\n\tS []Length\n\tMp map[Text]RecB\n\tW Words\n}\n"
+	pkg := vfTypeCheck("example.com/mod/p", []string{"/m/p/a.go"}, []string{src}, nil)
+	holder := pkg.Types.Scope().Lookup("Holder").Type()
+	var ana *Analysis
+	panicked, rt, msg := vfCatch(func() { ana = NewAnalysisFromTypes(pkg, []types.Type{holder}) })
+	vfObserve("outcome", msg)
+	vfAssert(!panicked && !rt, "C12/analysis-of-a-real-source-file-completes")
+	if panicked {
+		return
+	}
+	hs, isStruct := ana.Types[holder].(*Struct)
+	vfAssert(isStruct && len(hs.Fields) == 7, "C12/struct-node-has-one-field-per-source-field")
+	if !isStruct || len(hs.Fields) != 7 {
+		return
+	}
+	back := true
+	for _, f := range hs.Fields {
+		back = back && f.Type != nil && types.Identical(f.Type.Type(), types.Unalias(f.Field.Type()))
+	}
+	vfAssert(back, "C12/nodes-convert-back-to-an-identical-go-type")
+	kinds := true
+	for _, i := range []int{0, 1, 2} { // Dist, Meters, Length: the named float Dist
+		n, isNamed := hs.Fields[i].Type.(*Named)
+		kinds = kinds && isNamed && LocalName(n) == "Dist"
+	}
+	_, recIsStruct := hs.Fields[3].Type.(*Struct)
+	arr, isArr := hs.Fields[4].Type.(*Array)
+	mp, isMap := hs.Fields[5].Type.(*Map)
+	kinds = kinds && recIsStruct && isArr && isMap
+	if kinds {
+		_, elemNamed := arr.Elem.(*Named)
+		_, valStruct := mp.Elem.(*Struct)
+		kb, keyBasic := mp.Key.(*Basic)
+		kinds = elemNamed && valStruct && keyBasic && kb.Kind() == BKString
+	}
+	vfAssert(kinds, "C12/nodes-are-classified-as-go-types-reports")
 }
